@@ -269,7 +269,7 @@ def resolve( path, attribute=False ):
                       if tag
                       else "Invalid term %r found in path %r" % ( working, path['segment'] ))
                 longer		= canonicalize_tag( found + u'.' + working['symbolic'] ) if found and not tag else None
-                if longer is not None and any( s == longer or s.startswith( longer + u'.' ) for s in symbol ):
+                if longer is not None and any( s == longer or s.startswith( longer + u'.' ) for s in list( symbol )): # (snapshot: Tags may be added meanwhile)
                     # Tags "A" and "A.B" (or "A.B.C") both exist: the longer name is the Tag addressed
                     tag		= found
                     result	= dict.fromkeys( result )
